@@ -409,7 +409,7 @@ def main():
         for text, spec, opts, meta in cfgs:
             if r.random() < 0.5:
                 spec.update(corpus.gen_pred(r, text, 'hash'))
-        items = S.execute(cfgs, label='c03', timeout=120)
+        items = S.execute(cfgs, label='c03', timeout=runs.time_limit(120))
         names = {str(m): type(m).__name__ for m in P.all_mutators(mods)}
         import tracecheck
         hs = [it for it in items if it.hier is not None]
@@ -441,7 +441,7 @@ def main():
                 last = sorted({m or '?' for _, m in chain[-6:]})
                 rep.violation(
                     f'run-does-not-terminate:{"+".join(last)}',
-                    f'ddSMT did not finish within 120 s on a <= 40 node '
+                    f'ddSMT did not finish within the time limit on a <= 40 node '
                     f'input (last adoptions by {last}); options {it.opts}',
                     S.replay_obj(it))
         rep.cov['runs'] = len(items)
